@@ -22,14 +22,14 @@ def S(*ks):
     return [P(k) if isinstance(k, str) else k for k in ks]
 
 
-SELECT_OK = [S("eos"), S("hdr", "eos"), S("hdr", "data", "eos"), S("hdr", "data", "data", "eos"),
-             S("data", "totals", "eos"), S("prog", "eos"), S("prog", "profile", "tcols", "eos"),
+SELECT_OK = [S("eos"), S("hdr", "eos"), S("hdr", "data", "end", "eos"), S("hdr", "data", "data", "eos"),
+             S("data", "totals", "end", "eos"), S("prog", "eos"), S("prog", "profile", "tcols", "eos"),
              S(P("log", 2), "eos"), S("hdr", P("pevents", 2), "data", "eos"),
-             S("hdr", "prog", "data", P("log", 1), "prog", "data", "totals", "profile", "eos")]
+             S("hdr", "prog", "data", P("log", 1), "prog", "data", "totals", "end", "profile", "eos")]
 SELECT_EXC = [S("exc"), S("hdr", "exc"), S("hdr", "prog", "exc"), S("hdr", "data", "exc"), S("prog", "data", "exc")]
 SELECT_FAULT = [S(), S("bad"), S("pong"), S("cut"), S("hdr", "trunc"), S("hdr", "garbage"), S("data", "cut"),
                 S("eosEarly"), S("hdr", "data", "bad"), S("prog", "pong")]
-INSERT_OK = [S("eos"), S("hdr", "eos"), S("hdr", "prog", "eos"), S("prog", "hdr", "eos"), S("hdr", P("log", 1), "eos"),
+INSERT_OK = [S("eos"), S("hdr", "eos"), S("hdr", "prog", "end", "eos"), S("prog", "hdr", "eos"), S("hdr", P("log", 1), "eos"),
              S("tcols", "hdr", "eos"), S("hdr", "prog", "profile", "eos")]
 INSERT_EXC = [S("exc"), S("hdr", "exc"), S("hdr", "prog", "exc")]
 INSERT_FAULT = [S(), S("bad"), S("hdr", "pong"), S("cut"), S("hdr", "cut"), S("hdr", "trunc"), S("eosEarly"),
